@@ -5,6 +5,7 @@
      PickLookup          the tail of the loop: pop the LAST element of toLookupIPs when no send is armed
      SendLookup          case toLookupC <- toLookupIP   (the environment's ServiceTakes)
      Info(src, res)      case info := <-infoSource: handleInstanceInfo (delete queues, decrement gauges, spawn dispatch goroutines)
+     InfoErr(src)        the same for a failed lookup of a source the cache still serves an instance for
      Deliver             a spawned goroutine hands its items to the next handler
      Emit                case statser := <-ch.emitChan
    Gauges are integers so that the uint64 underflow of the code is visible as a negative number.
@@ -13,7 +14,8 @@
    Composed with the P-level monitor EnrichProp. *)
 EXTENDS Integers, FiniteSets, Sequences, TLC
 
-CONSTANTS Sources, MaxArrivals, CountPerQueue
+CONSTANTS Sources, MaxArrivals, CountPerQueue,
+          PeekAtRelease   \* deviation (round-5 seeded change): a failed lookup's items are enriched with what the cache holds when they are released
 
 VARIABLES cache,        \* src -> "pos" | "neg"  (absent = miss)
           awaitM, awaitE, toLookup, armed, spawned,
@@ -80,6 +82,22 @@ Info(src, res) ==
                         \cup (IF Has(awaitE, src) THEN {[ids |-> awaitE[src], tagged |-> IF res = "pos" THEN "pos" ELSE "none"]} ELSE {})
   /\ UNCHANGED <<toLookup, armed, arrivals>>
 
+\* the lookup fails while the cache keeps (or has meanwhile got) an older instance for the source: a provider that "never forgets good data
+\* on error" (C12) answers nil and goes on serving what it had.  The items that waited leave unchanged.
+InfoErr(src) ==
+  /\ src \in outstanding
+  /\ Prop!PAnswer(src, "neg")
+  /\ cache' = Put(cache, src, "pos")
+  /\ awaitM' = IF Has(awaitM, src) THEN Del(awaitM, src) ELSE awaitM
+  /\ awaitE' = IF Has(awaitE, src) THEN Del(awaitE, src) ELSE awaitE
+  /\ gMH' = IF Has(awaitM, src) THEN gMH - 1 ELSE gMH
+  /\ gEH' = IF Has(awaitE, src) THEN gEH - 1 ELSE gEH
+  /\ gEI' = IF Has(awaitE, src) THEN gEI - Cardinality(awaitE[src]) ELSE gEI
+  /\ LET t == IF PeekAtRelease THEN "pos" ELSE "none" IN
+     spawned' = spawned \cup (IF Has(awaitM, src) THEN {[ids |-> awaitM[src], tagged |-> t]} ELSE {})
+                        \cup (IF Has(awaitE, src) THEN {[ids |-> awaitE[src], tagged |-> t]} ELSE {})
+  /\ UNCHANGED <<toLookup, armed, arrivals>>
+
 Deliver == \E g \in spawned : /\ Prop!PLeave(g.ids, g.tagged) /\ spawned' = spawned \ {g}
                               /\ UNCHANGED <<cache, awaitM, awaitE, toLookup, armed, gMH, gEH, gEI, arrivals>>
 Emit == /\ Prop!PGauge(gMH, gEH, gEI)
@@ -88,6 +106,7 @@ Emit == /\ Prop!PGauge(gMH, gEH, gEI)
 Next == \/ \E s \in Sources \cup {""} : ArriveM(s) \/ ArriveE(s)
         \/ PickLookup \/ SendLookup \/ Deliver \/ Emit
         \/ \E s \in Sources, r \in {"pos", "neg"} : Info(s, r)
+        \/ \E s \in Sources : InfoErr(s)
 Spec == Init /\ [][Next]_vars
 
 MonitorQuiet == bad = ""
